@@ -336,10 +336,16 @@ func Exec(p Program, choices []int, free bool) (*Execution, error) {
 	}
 	var l klevdb.Log = w.L
 	if p.Block {
-		bl, err := klevdb.WrapBlocking(w.L)
+		// through OpenBlocking itself (the initial state is on disk: close and open again)
+		if err := w.L.Close(); err != nil {
+			return nil, err
+		}
+		w.L = nil
+		bl, err := klevdb.OpenBlocking(w.Dir, p.Cfg.Options())
 		if err != nil {
 			return nil, err
 		}
+		w.L = bl
 		l = bl
 	}
 	x := &Execution{Choices: choices, Init: w.M.Clone(), Results: make([][]Res, len(p.Threads))}
